@@ -367,7 +367,24 @@ replayable input and not a broken pin; {len(r6) - len(r6_open)} of {len(r6)} are
 One false alarm was met and corrected in the machinery while doing so (C14: `concatenate(defaults=...)` casts a fill value
 to the dtype of the field it fills; the new bool / unsigned data vectors are kept out of that op). `harness/seed_eval.py`
 now removes only the replay files of its own run, so evaluations can run next to registered checks.
-ROUND6_BUILDERS
+
+Round 6 also extended the models and proofs (builder sub-agents in private copies, merged and re-run here):
+* C04 - `Proofs/HistCoeffEq.v`: coefficient equivalence `ceq` of two BQM states (variable and term order free) is preserved with
+  equal outcomes by every modelled call on any handle except the positional ones (pop, resize, relabel_variables_as_integers:
+  refuted by witnesses), lifted to histories (`C04_backends_equivalent_histories`, `_dict_order`) and characterised by energies
+  (`C04_coefficient_equivalence_iff_energy`); this replaces the per-history-only tie of the three back-ends for contract / flip /
+  fix / update / change_vartype / writes through translating views.
+* C06 - the remaining translated dispatch paths are proved equal to the specification (`**` of a BQM, BQM x QM, QM x BQM, BQM x BQM of
+  two vartypes through `from_bqm` / `__rmul__`; `from_cybqm` translated line by line), plus operand-frame theorems for the
+  translated methods; `*`, `*=`, `**` now hold for every operand kind (`C06_gen_mul_correct`, `_imul_correct`, `_pow_correct`).
+* C17 - three new construction translators (`qap_construction.py`, `magic_construction.py`, `mult_wiring.py`) with `*_is_source` tie
+  theorems for all n (m); 25 structure theorems for the random generators with the PRNG's draws as parameters
+  (`Model/RandStruct.v`); a per-case Coq tie for chimera_anticluster.
+* C20 - the DQM `to_numpy_vectors` / `from_numpy_vectors` rebuild is the identity on invariant states (nothing lost, biases kept,
+  energies kept), energies = case-level polynomial at the one-hot encoding; 'fixing = evaluating at the assignment' for
+  `Expression::fix_variable` and the copying `fix_variables` path at index level.
+One further /repo repair came out of the round: `49abc6b` (`Initialized.parse_initial_states` raised on boolean SPIN initial
+states for a BINARY problem; found by the new all-ones unsigned / boolean initial-state stream of C07).
 """)
 t = open(os.path.join(ROOT, 'DESIGN.md')).read()
 i = t.find("\n### 10.2 ")
